@@ -337,10 +337,11 @@ def correspondence(ctx):
                     checks.append(f"match release_step {gb} {k} with Some g' => graph_eqb g' {ga} | None => false end")
                 descr.append((op, hi, ei))
                 ctx.case((op, repr(before), k), True)
-            elif op in ("start", "mark_pending") and "rejected" not in ev:
+            elif op in ("start", "mark_pending", "end", "skip", "validate", "external") and "rejected" not in ev \
+                    and before is not None and ev["args"].get("kind") != "early_fail":
                 # a composite operation replayed as a sequence of model primitives
-                k = ev["args"]["step"]
-                seq = M.decompose("reset_for_rerun" if op == "start" else "mark_step_pending", before, k)
+                k = ev["args"].get("step", ev["args"].get("path"))
+                seq = M.decompose_event(ev)
                 gb, ga = M.to_coq(before), M.to_coq(after)
                 # the sequence lands on the real tables, and every primitive is applied where the side
                 # condition of its flag-soundness theorem holds (run_ok_b)
@@ -357,7 +358,8 @@ def correspondence(ctx):
                 checks.append(f"let r := revert_optional {gb} in graph_eqb (fst r) {ga} && queue_eqb (snd r) {q}")
                 descr.append(("revert", hi, ei))
                 ctx.case(("revert", repr(before)), bool(ev["to_be_deleted"]))
-            elif op == "end" and ev["args"].get("wants_defer") and ev["args"].get("kind") in ("defer", "always_defer", None):
+            if op == "end" and ev["args"].get("wants_defer") and ev["args"].get("kind") in ("defer", "always_defer", None) \
+                    and before is not None:
                 k = ev["args"]["step"]
                 sb, sa = _step_row(before, k), _step_row(after, k)
                 if sb is None or sa is None or ev["args"].get("stored_hash"):
